@@ -7,3 +7,4 @@ import JaxVerif.Properties.C06
 #print axioms JV.C06_sensitive
 #print axioms JV.C06_no_other_shared_state
 #print axioms JV.C06_source_storage
+#print axioms JV.C06_source_cells
